@@ -327,7 +327,7 @@ class EnvBoundaryMPS():
 
         return out
 
-    def measure_nsite(self, *operators, sites=None) -> float:
+    def measure_nsite(self, *operators, sites=None, opts_svd=None, opts_var=None) -> float:
         r"""
         Calculate expectation value of a product of local operators.
 
@@ -340,11 +340,19 @@ class EnvBoundaryMPS():
 
         sites: Sequence[int]
             A list of sites [s0, s1, ...] matching corresponding operators.
+
+        opts_svd: dict
+            Options passed to :meth:`yastn.linalg.svd` used to truncate virtual spaces of boundary MPSs while contracting the columns spanned by sites.
+            The default is ``None``, in which case take ``D_total`` as the largest dimension of the boundary MPSs enclosing those columns.
+
+        opts_var: dict
+            Options passed to :meth:`yastn.tn.mps.compression_` used in the refining of boundary MPSs.
+            The default is ``None``, in which case make 2 variational sweeps.
         """
         self.xrange = (0, self.psi.Nx) # (min(site[0] for site in sites), max(site[0] for site in sites) + 1)
         self.yrange = (min(site[1] for site in sites), max(site[1] for site in sites) + 1)
         dirn = 'lr'
-        return _measure_nsite(self, *operators, sites=sites, dirn=dirn)
+        return _measure_nsite(self, *operators, sites=sites, dirn=dirn, opts_svd=opts_svd, opts_var=opts_var)
 
     def measure_2site(self, O, P, xrange=None, yrange=None, pairs='corner <=', dirn='v', opts_svd=None, opts_var=None):
         r"""
